@@ -826,6 +826,11 @@ def _binop(op, l, r):
             return l / r
         if isinstance(op, ast.Mod):
             if isinstance(l, (str, bytes)):
+                # printf-style formatting of constants by constants is itself a constant
+                if isinstance(r, (int, str)) or (isinstance(r, tuple) and all(isinstance(x, (int, str)) for x in r)):
+                    out = l % r
+                    if len(out) <= 4096:
+                        return out
                 raise NotConst()
             return l % r
         if isinstance(op, ast.Pow):
